@@ -20,7 +20,11 @@ RULE = ('synthetic structures of 2-5 chains (1-12 atoms each, table order contig
         'through the public API (transform.translation, update_xyz, update, update_column by exact lattice vectors onto / next to a cutoff or 100 A away; '
         'renaming atoms; rot_axis), every call compared with Model and Spec on the table read back from the object at that moment; no-contact '
         'structures and structures whose contacting atoms are all filtered out for every option combination; and the bundled 3CRO at 8.5 / 6.0 A '
-        '(thorough: further option combinations, all four chains of 3CRO, 3CRO_H, 1AK4 target and 10w; a few corpus structures run first). The model receives the exact rationals of the doubles the library parsed. A case is counted '
+        '(thorough: further option combinations, all four chains of 3CRO, 3CRO_H, 1AK4 target and 10w; a few corpus structures run first); '
+        'EXTENDED chains: 2-4 strands of 4-10 atoms along one of the 26 lattice directions (axes, face and space diagonals, equally often), several '
+        'cutoffs long, a later chain starting exactly on / one step inside / outside the cutoff from an end or an inner atom of an earlier one '
+        '(end to end on one line, side by side, corner to corner, crossing; some far away), cutoffs 3-8.5 A small compared with the chains, all ordered '
+        'pairs and allchains x 8 option combinations (also in the swap / union / exactly-once relations). The model receives the exact rationals of the doubles the library parsed. A case is counted '
         'non-trivial when its result is non-empty or an exception, distinct by (structure, arguments).')
 ASSUMPTIONS = ['single-model files (no ENDMDL): with models get() returns one list per model and get_contact_atoms is not defined',
                'floating-point distance equals the exact distance decision: generated distances are exactly on a cutoff (lattice values, exact in binary64) '
@@ -162,6 +166,65 @@ def gen_structure(rng, nchains=None, max_atoms=12, target_cutoff=None, residue_t
     else:
         table = [a for m in per_chain for a in m]
     return table
+
+
+DIRECTIONS = [d for d in itertools.product((-1, 0, 1), repeat=3) if any(d)]       # 6 axes, 12 face diagonals, 8 space diagonals
+
+
+def gen_extended_structure(rng, target_cutoff, nchains=None):
+    """EXTENDED chains: every chain is a strand of 4-10 atoms, `step` lattice units apart per coordinate along one of the 26 lattice
+    directions (axes, face diagonals, space diagonals), so that a chain is several cutoffs long.  A later chain starts at an
+    offset of exactly / just inside / just outside the cutoff (pick_offset) from an END atom or an inner atom of an earlier chain and
+    runs along the same direction (end to end along the line, or side by side), the opposite one, or another direction (chains
+    meeting corner to corner / crossing); some chains are placed far away.  The chains of the random family `gen_structure` are blobs
+    of about one cutoff across; here the contacting atoms are typically at the ends of long chains, i.e. at the corners of their
+    bounding boxes and far from their centres (any geometry is in the quantifier).  Returns (table, layout description)."""
+    nchains = nchains or rng.choice([2, 2, 3, 3, 4])
+    chains = rng.sample(CHAIN_POOL, nchains)
+    kind = rng.choice([1, 2, 3])                                # an axis, a face diagonal, a space diagonal: equally often
+    u = list(rng.choice([d for d in DIRECTIONS if sum(1 for x in d if x) == kind]))
+    per_chain, layout = [], []
+    shared_seq = rng.randint(-9, 40)
+    for ci, ch in enumerate(chains):
+        n = rng.randint(4, 10)
+        step = rng.randint(6, 14)                               # 1.5 - 3.5 A per coordinate
+        if ci == 0:
+            start, d, how = [rng.randint(-8, 8) for _ in range(3)], u, 'first'
+        else:
+            r = rng.random()
+            prev = per_chain[rng.randrange(len(per_chain))]
+            if r < 0.12:
+                how, anchor = 'far', [400 * (ci + 1) + rng.randint(-8, 8) for _ in range(3)]
+                off = [0, 0, 0]
+            else:
+                how = 'end' if r < 0.65 else 'inner'
+                a = prev[-1] if (how == 'end' and rng.random() < 0.7) else prev[0] if how == 'end' else rng.choice(prev)
+                anchor = a['q']
+                off, mode = pick_offset(rng, target_cutoff if rng.random() < 0.8 else None)
+                how += ':' + mode
+            start = [anchor[i] + off[i] for i in range(3)]
+            r2 = rng.random()
+            d = u if r2 < 0.55 else [-x for x in u] if r2 < 0.7 else list(rng.choice(DIRECTIONS))
+        seq = shared_seq if rng.random() < 0.5 else rng.randint(-20, 60)
+        resname = rng.choice(RESNAMES)
+        left = rng.randint(1, 3)
+        mine = []
+        for k in range(n):
+            if left == 0:
+                left = rng.randint(1, 3)
+                seq += rng.choice([1, 1, 2])
+                resname = rng.choice(RESNAMES)
+            left -= 1
+            q = [start[i] + k * step * d[i] + (rng.randint(-1, 1) if k else 0) for i in range(3)]
+            mine.append({'chain': ch, 'resSeq': seq, 'resName': resname, 'name': pick_name(rng), 'q': q})
+        if rng.random() < 0.3:
+            mine.reverse()                                      # the contacting end is the first / the last atom of the chain in the table
+        per_chain.append(mine)
+        layout.append([how, list(d), n, step])
+    table = [a for m in per_chain for a in m]
+    if rng.random() < 0.15:                                     # interleave the chains in the table
+        rng.shuffle(table)
+    return table, layout
 
 
 def to_lines(table):
@@ -434,6 +497,24 @@ def structure_cases(ctx, op, n_struct, family='lattice', extends=(False,), pair_
     return out
 
 
+def extended_cases(ctx, op, n_struct, family='extended', extends=(False,), pair_limit=4):
+    """extended chains (gen_extended_structure) with cutoffs that are small compared with the chains: the target cutoff (3 or 5 A
+    mostly) and one other; all ordered chain pairs (at most `pair_limit` when there are more) x 8 option combinations, and allchains"""
+    rng = ctx.rng
+    out = []
+    for _ in range(n_struct):
+        target = rng.choice([3.0, 3.0, 5.0, 5.0, 7.0, 8.5])
+        table, layout = gen_extended_structure(rng, target)
+        lines = to_lines(table)
+        chains = chains_of_lines(lines)
+        cuts = [target, rng.choice([c for c in CUTS if c != target])]
+        cs = option_cases(op, {'lines': lines}, chains, cuts, family, extends, pair_limit, rng)
+        for c in cs:
+            c['layout'] = layout
+        out += cs
+    return out
+
+
 def malformed_cases(ctx, op, n):
     rng = ctx.rng
     out = []
@@ -526,6 +607,16 @@ def corpus(ctx, op='contact_atoms', extends=(False,)):
     onlyH = [atom_line(1, ' H  ', 'ALA', 'A', 1, 0, 0, 0), atom_line(2, ' HA ', 'ALA', 'A', 1, 0, 1, 0), atom_line(3, ' CB ', 'GLY', 'B', 1, 3, 0, 0),
              atom_line(4, ' CA ', 'GLY', 'B', 2, 60, 0, 0), atom_line(5, ' HB2', 'SER', 'C', 1, 0, 0, 3), atom_line(6, ' CG ', 'SER', 'C', 1, 0, 0, 4)]
     out += option_cases(op, {'lines': onlyH}, ['A', 'B', 'C'], [3.0, 5.0], 'corpus:filtered-out', extends)
+    # long chains touching end to end: A and B on one line along a space diagonal / a face diagonal (their only contact is between the
+    # last atom of A and the first atom of B, exactly on the cutoff resp. inside it, far from both chain centres); C runs beside A
+    namesA, namesB, namesC = [' N  ', ' CB ', ' HA ', ' O  ', ' CA '], [' N  ', ' CA ', ' HB2', ' CG ', ' C  '], [' CA ', ' H  ', ' OG1', ' C  ']
+    for d, offB, cut in (((1, 1, 1), (1, 2, 2), 3.0), ((1, -1, 0), (2, -2, 1), 5.0)):
+        ext = [atom_line(k + 1, namesA[k], 'ALA', 'A', 1 + k // 2, 3 * k * d[0], 3 * k * d[1], 3 * k * d[2]) for k in range(5)]
+        ext += [atom_line(k + 6, namesB[k], 'GLY', 'B', 1 + k // 2, 12 * d[0] + offB[0] + 3 * k * d[0], 12 * d[1] + offB[1] + 3 * k * d[1],
+                          12 * d[2] + offB[2] + 3 * k * d[2]) for k in range(5)]
+        out += option_cases(op, {'lines': list(ext)}, ['A', 'B'], [cut], 'corpus:end-to-end', extends)
+        ext += [atom_line(k + 11, namesC[k], 'SER', 'C', 7, 3 * k * d[0] + 2, 3 * k * d[1] + 1, 3 * k * d[2] - 1) for k in range(4)]
+        out += option_cases(op, {'lines': ext}, ['A', 'B', 'C'], [cut], 'corpus:end-to-end', extends, pair_limit=None)
     # the smallest histories: a call, chain B moved away (or back into contact) through each editing entry point, the same call again
     near = [atom_line(1, ' CA ', 'ALA', 'A', 1, 0, 0, 0), atom_line(2, ' CA ', 'GLY', 'B', 1, 3, 0, 0)]
     for how in EDITS:
@@ -627,6 +718,7 @@ def cases(ctx):
     out += malformed_cases(ctx, 'contact_atoms', ctx.scale(6, 40))
     out += history_cases(ctx, ['contact_atoms', 'contact_residues'], ctx.scale(60, 600))
     out += file_cases(ctx, 'contact_atoms')
+    out += extended_cases(ctx, 'contact_atoms', ctx.scale(8, 60))      # appended last: the cases above are unchanged for a given seed
     return out
 
 
@@ -846,7 +938,20 @@ def extra_checks(ctx):
         bad_swap = bad_swap or r.get('swap')
         bad_union = bad_union or r.get('union')
         bad_once = bad_once or r.get('once')
-    res.append({'name': f'swap transposes the pair map and keeps the sets ({n} structures, real code only)', 'ok': bad_swap is None, 'case': bad_swap,
+    n_ext = ctx.scale(12, 120)
+    for _ in range(n_ext):                     # the same relations on extended chains (cutoff small compared with the chains)
+        cut = rng.choice([3.0, 5.0, 5.0, 8.5])
+        table, _layout = gen_extended_structure(rng, cut, nchains=rng.choice([3, 3, 4, 5]))
+        lines = to_lines(table)
+        bb, noH = rng.random() < 0.3, rng.random() < 0.5
+        try:
+            r = _relations(lines, cut, bb, noH)
+        except Exception as e:
+            r = {'swap': {'lines': lines, 'cutoff': cut, 'bb': bb, 'noH': noH, 'raised': repr(e)[:300]}}
+        bad_swap = bad_swap or r.get('swap')
+        bad_union = bad_union or r.get('union')
+        bad_once = bad_once or r.get('once')
+    res.append({'name': f'swap transposes the pair map and keeps the sets ({n} random + {n_ext} extended-chain structures, real code only)', 'ok': bad_swap is None, 'case': bad_swap,
                 'detail': 'pairs(B,A) != transpose(pairs(A,B)) or different per-chain sets'})
     res.append({'name': 'all-chains sets = union of the two-chain sets over the other chains', 'ok': bad_union is None, 'case': bad_union, 'detail': ''})
     res.append({'name': 'all-chains pair map = every pair of the two-chain maps (first-sorting chain first) exactly once', 'ok': bad_once is None,
